@@ -279,7 +279,6 @@ func checkC18(w *World, r *Report) {
 			panic(undecided{"schema.addDefaults.yangDataChildren"})
 		}
 		isActive := w.SSAFunc(w.Func("schema", "IsActiveDefault"))
-		hasCfg := w.SSAFunc(w.Func("schema", "hasCfg"))
 		checked := false
 		for _, b := range f.Blocks {
 			for _, in := range b.Instrs {
@@ -297,23 +296,74 @@ func checkC18(w *World, r *Report) {
 				if ok {
 					cf := mc.Fn.(*ssa.Function)
 					good, why = true, ""
-					nret := 0
-					for _, cb := range cf.Blocks {
-						for _, ci := range cb.Instrs {
-							switch x := ci.(type) {
-							case *ssa.Lookup, *ssa.MapUpdate:
-								good, why = false, "the checker consults or fills a table"
-							case *ssa.Return:
-								nret++
-								call, isCall := x.Results[0].(*ssa.Call)
-								if !isCall || call.Call.StaticCallee() != hasCfg || call.Call.Args[1] != ssa.Value(cf.Params[0]) {
-									good, why = false, "the checker does not return hasCfg(seen, <its argument>)"
+					// the closure and the helpers of the package it hands its argument to
+					fns := []*ssa.Function{cf}
+					for i := 0; i < len(fns) && i < 6; i++ {
+						for _, cb := range fns[i].Blocks {
+							for _, ci := range cb.Instrs {
+								if call, ok := ci.(*ssa.Call); ok {
+									if g := call.Call.StaticCallee(); g != nil && g.Pkg == cf.Pkg && g.Blocks != nil {
+										dup := false
+										for _, h := range fns {
+											if h == g {
+												dup = true
+											}
+										}
+										if !dup {
+											fns = append(fns, g)
+										}
+									}
 								}
 							}
 						}
 					}
-					if nret != 1 {
-						good, why = false, "the checker has several exits"
+					// key of a table lookup: must come from a child of the node asked about
+					fromChild := func(v ssa.Value) bool {
+						seen := map[ssa.Value]bool{}
+						var walk func(v ssa.Value, d int) bool
+						walk = func(v ssa.Value, d int) bool {
+							if v == nil || seen[v] || d > 12 {
+								return false
+							}
+							seen[v] = true
+							if call, ok := v.(*ssa.Call); ok && call.Call.IsInvoke() && call.Call.Method.Name() == "Children" {
+								return true
+							}
+							if in, ok := v.(ssa.Instruction); ok {
+								for _, op := range in.Operands(nil) {
+									if *op != nil && walk(*op, d+1) {
+										return true
+									}
+								}
+							}
+							return false
+						}
+						return walk(v, 0)
+					}
+					for _, g := range fns {
+						for _, cb := range g.Blocks {
+							for _, ci := range cb.Instrs {
+								switch x := ci.(type) {
+								case *ssa.MapUpdate:
+									good, why = false, "the checker fills a table"
+								case *ssa.Lookup:
+									if _, isMap := x.X.Type().Underlying().(*types.Map); isMap && !fromChild(x.Index) {
+										good, why = false, "the checker consults a table by something other than the names of the node's children"
+									}
+								}
+							}
+						}
+					}
+					// and the answer is computed from the argument
+					for _, cb := range cf.Blocks {
+						if ret, ok := cb.Instrs[len(cb.Instrs)-1].(*ssa.Return); ok && len(ret.Results) == 1 {
+							if k, isConst := ret.Results[0].(*ssa.Const); isConst && k != nil {
+								continue
+							}
+							if !c18DependsOnParam(ret.Results[0], cf, fns) {
+								good, why = false, "the checker's answer does not depend on the node it is asked about"
+							}
+						}
 					}
 				}
 				r.Check(good, "R18.9", "yangDataChildren: configuration checker", c.Pos(), "func(n) { return hasCfg(seen, n) }", why+": the answer for one choice/case can be served for a different, like-named one, so defaults of an inactive case are added or those of the default case are missing")
@@ -667,4 +717,49 @@ func c18Classifiers(w *World, r *Report) {
 			r.Check(bad == "", "R18.7", fn+": "+k, f.Pos(), "required iff "+text[k], fmt.Sprintf("%s decides a %s child differently (%s); the rule and the sibling classifiers say: required iff %s", fn, k, bad, text[k]))
 		}
 	}
+}
+
+// c18DependsOnParam: v is computed from parameter 0 of cf (through calls into
+// the listed helpers).
+func c18DependsOnParam(v ssa.Value, cf *ssa.Function, fns []*ssa.Function) bool {
+	seen := map[ssa.Value]bool{}
+	var walk func(v ssa.Value, d int) bool
+	walk = func(v ssa.Value, d int) bool {
+		if v == nil || seen[v] || d > 20 {
+			return false
+		}
+		seen[v] = true
+		if v == ssa.Value(cf.Params[0]) {
+			return true
+		}
+		if phi, ok := v.(*ssa.Phi); ok {
+			// a result assembled by control flow depends on what the branches tested
+			for _, e := range phi.Edges {
+				if walk(e, d+1) {
+					return true
+				}
+			}
+			for _, p := range phi.Block().Preds {
+				for q := p; q != nil; q = q.Idom() {
+					if iff, ok := q.Instrs[len(q.Instrs)-1].(*ssa.If); ok && walk(iff.Cond, d+1) {
+						return true
+					}
+				}
+			}
+			return false
+		}
+		if in, ok := v.(ssa.Instruction); ok {
+			for _, op := range in.Operands(nil) {
+				if *op != nil && walk(*op, d+1) {
+					return true
+				}
+			}
+		}
+		return false
+	}
+	if walk(v, 0) {
+		return true
+	}
+	// constant results selected by tests on the parameter
+	return false
 }
